@@ -45,6 +45,7 @@ CONSTANTS
   FIXREV = {fixrev}
   FIXWRAP = TRUE
   FIXHOPS = {fixhops}
+  FIXOHEXP = TRUE
   XorAcc <- SymXor
   MAXLEN = {maxlen}
   ALLCH = {allch}
@@ -52,6 +53,20 @@ CONSTANTS
   GEN = {gen}
   FAMILY = "{family}"
 INVARIANTS ErrIsAtomic AgreeReverse Involution Position WFReverses AgreeExpiry AgreeSegments EndsSwap Emit
+"""
+
+
+OH_TMPL = """SPECIFICATION Spec
+CONSTANTS
+  CHMOD = 64
+  U32CAP = 100000
+  FIXREV = TRUE
+  FIXWRAP = TRUE
+  FIXHOPS = TRUE
+  FIXOHEXP = {fixohexp}
+  XorAcc <- SymXor
+  GEN = {gen}
+INVARIANTS ErrIsAtomic StdAgree EndsSwap ExpiryTotal Emit
 """
 
 
@@ -107,6 +122,15 @@ def replay_cells(c, binp, cells, tag):
             obs = res.get("obs") or {}
             # vacuity counters are taken from the GENERATED cell (specification side), never from
             # what the code under test answered
+            if cell.get("fam") == "onehop":
+                stats["onehop"] = stats.get("onehop", 0) + 1
+                if not res["conf"]:
+                    stats["mismatch"] += 1
+                    m = res["mis"][0]
+                    c.drift("one-hop cell %s: %s spec %s real %s" % (json.dumps({k: cell[k] for k in ("cd", "ts", "in1", "in2", "e1", "e2")}), m["field"],
+                                                                     json.dumps(m["spec"])[:160], json.dumps(m["real"])[:160]))
+                report_pvs(c, res["pv"], "one-hop", {"kind": "cell", "cell": cell})
+                continue
             if cell.get("wf"):
                 stats["wf"] += 1
             r = (cell.get("rev") or {}).get("ok")
@@ -189,6 +213,19 @@ def run(c):
         for d in cells:
             d["fam"] = "std"
         all_cells += cells
+    # one-hop paths: small decision table
+    r = c.tlc(SD, "MC_OneHop", cfg=cfg(c, "mc_onehop.cfg", OH_TMPL.format(fixohexp="TRUE", gen="TRUE")), timeout=3000)
+    for inv in r.violated:
+        c.violation("spec:onehop:%s" % inv, "design-level: invariant %s violated on MC_OneHop; see %s" % (inv, r.out_path), {"tlc_out": r.out_path})
+    oh = c.printed_json(r, "OHCELL")
+    if not oh:
+        c.fail_tool("generation run printed no one-hop cells")
+    for d in oh:
+        d["fam"] = "onehop"
+    all_cells += oh
+    rb = c.tlc(SD, "MC_OneHop", cfg=cfg(c, "mc_onehop_unfixed.cfg", OH_TMPL.format(fixohexp="FALSE", gen="FALSE")), expect_violation=True, coverage=False)
+    if "ExpiryTotal" not in rb.violated:
+        c.fail_tool("oracle self-check failed: FIXOHEXP=FALSE no longer violates ExpiryTotal in the model")
     # ---- 1b. oracle self-checks: the pinned-commit variants must be refuted -------------------------
     r0 = c.tlc(SD, "MC_PathOps", cfg=cfg(c, "mc_unfixed_rev.cfg", MC_TMPL.format(
         chmod=64, fixrev="FALSE", fixhops="TRUE", maxlen=2, allch="FALSE", depth=1, gen="FALSE", family="ptr")),
@@ -219,7 +256,7 @@ def run(c):
     c.cov["evaluations"] = st["cells"]
     c.cov["distinct_nontrivial"] = st["nontrivial"]
     c.cov["replay_stats"] = st
-    mid = all_cells[len(all_cells) // 2]
+    mid = all_cells[len(all_cells) // 3]
     c.sample({"cell": {k: mid[k] for k in ("sl", "ci", "ch", "cd", "wf")}, "spec_rev": mid["rev"], "spec_model_rev": mid["mrev"]})
 
     # ---- 3. record real call sequences on large shapes -> trace validation --------------------------------
